@@ -26,9 +26,15 @@ RULE = ("universe of 4-8 objects (1-3 Workflows, 0-3 empty Macros, leaves; label
         "marking starting nodes; ~75% of the operations are biased towards being applicable, the rest is "
         "arbitrary (clashes, second parents, cycles, workflows as children, reserved names: methods, properties, "
         "instance-only attributes such as executor/running/starting_nodes and a user-set plain attribute); a history is abandoned "
-        "at the first operation after which the property fails on the implementation (never, on the repaired code). Non-trivial = some "
+        "at the first operation after which the property fails on the implementation (never, on the repaired code). "
+        "Labels include whitespace variants of sibling labels ('a ' next to 'a'). ORACLE-ONLY family (not in Lex.v): "
+        "8 macro classes with a real graph creator (hand-wired run signals + starting_nodes or automatic flow, inputs "
+        "no child uses, forked inputs, nested macros) x 5 ways into a workflow x run/not: the tree invariant incl. "
+        "starting_nodes <= children is checked on the whole object tree after construction, nesting, run, removal. Non-trivial = some "
         "operation changed the ownership state; distinct = distinct (universe, history)")
-TRUSTED = ["the composite's own attribute names (instance __dict__ + dir(class), read off real objects, NOT through "
+TRUSTED = ["graph-creator macros (UI-node creation/purge, execution wiring at construction) are judged by the oracle "
+           "alone: Lex.v models empty macros only",
+           "the composite's own attribute names (instance __dict__ + dir(class), read off real objects, NOT through "
            "the __dir__ under test) restricted to the label pool are the model's `reserved` table and the oracle's",
            "replace_child is exercised on unconnected nodes only (copy_io / value links have nothing to do)"]
 ASSUMPTIONS = ["labels are assigned only through adoption (no direct `child.label = x` on an owned child); "
@@ -49,6 +55,180 @@ def Macro13(self):
     pass
 
 
+# Macros with a real graph creator: children, data connections, hand-wired or automatic execution, inputs that
+# no child uses / that fork to two children, nesting.  Their construction (UI nodes created for the signature,
+# purged again, starting nodes re-pointed) is outside Lex.v; these cases are judged by the oracle alone.
+@as_macro_node("out")
+def MacManSpare(self, x=0, spare=5):
+    self.first = Leaf13(x=x)
+    self.second = Leaf13(x=self.first)
+    self.third = Leaf13(x=self.second)
+    self.first >> self.second >> self.third
+    self.starting_nodes = [self.first]
+    return self.third
+
+
+@as_macro_node("out")
+def MacAutoSpare(self, x=0, spare=5):
+    self.first = Leaf13(x=x)
+    self.second = Leaf13(x=self.first)
+    return self.second
+
+
+@as_macro_node("out")
+def MacManTwoSpare(self, s1=1, x=0, s2=2):
+    self.first = Leaf13(x=x)
+    self.second = Leaf13(x=self.first)
+    self.first >> self.second
+    self.starting_nodes = [self.first]
+    return self.second
+
+
+@as_macro_node("out")
+def MacManFork(self, x=0, spare=5):
+    self.first = Leaf13(x=x)
+    self.second = Leaf13(x=x)
+    self.first >> self.second
+    self.starting_nodes = [self.first]
+    return self.second
+
+
+@as_macro_node("out")
+def MacManPlain(self, x=0):
+    self.first = Leaf13(x=x)
+    self.second = Leaf13(x=self.first)
+    self.first >> self.second
+    self.starting_nodes = [self.first]
+    return self.second
+
+
+@as_macro_node("out")
+def MacManOnlySpare(self, spare=5):
+    self.first = Leaf13()
+    self.second = Leaf13(x=self.first)
+    self.first >> self.second
+    self.starting_nodes = [self.first]
+    return self.second
+
+
+@as_macro_node("out")
+def MacNestMan(self, x=0, spare=1):
+    self.inner = MacManSpare(x=x)
+    self.last = Leaf13(x=self.inner)
+    self.inner >> self.last
+    self.starting_nodes = [self.inner]
+    return self.last
+
+
+@as_macro_node("out")
+def MacNestAuto(self, x=0, spare=1):
+    self.inner = MacManFork(x=x)
+    self.other = MacAutoSpare(x=self.inner)
+    return self.other
+
+
+MACROS = {f.__name__: f for f in (MacManSpare, MacAutoSpare, MacManTwoSpare, MacManFork, MacManPlain,
+                                  MacManOnlySpare, MacNestMan, MacNestAuto)}
+HOSTS = ["none", "attr", "add", "kw", "two"]     # how the macro gets into a workflow (two = a second, connected copy)
+
+
+def gen_macro_cases():
+    out = []
+    for name in MACROS:
+        for host in HOSTS:
+            for run in (False, True):
+                out.append({"kind": "macro", "cls": name, "host": host, "run": run,
+                            "strict": (len(out) % 3) != 0})
+    return out
+
+
+def tree_snapshot(roots):
+    """every composite reachable from roots (by identity): [path label, own _parent agrees?, children, starting]"""
+    from pyiron_workflow.nodes.composite import Composite
+    out, seen = [], set()
+
+    def visit(c, where):
+        if id(c) in seen:
+            return
+        seen.add(id(c))
+        ch = []
+        for k, v in c._children.items():
+            ch.append([k, v.label, v._parent is c, type(v).__name__])
+        st = [[n.label, any(v is n for v in c._children.values()), n._parent is c] for n in c.starting_nodes]
+        out.append([where, ch, st, sorted(k for k in c._children if k in genuine_attributes(c))])
+        for k, v in c._children.items():
+            if isinstance(v, Composite):
+                visit(v, where + "/" + k)
+    for r in roots:
+        visit(r, r.label)
+    return out
+
+
+def run_macro_case(case):
+    from pyiron_workflow import Workflow
+    cls, host, strict = MACROS[case["cls"]], case["host"], case["strict"]
+    obs, roots = [], []
+
+    def stage(name, f):
+        try:
+            f()
+            r = "ok"
+        except Exception as e:
+            r = type(e).__name__
+        obs.append([name, r, tree_snapshot(roots)])
+    box = {}
+
+    def build():
+        box["m"] = cls(label="m", strict_naming=strict)
+        roots.append(box["m"])
+    stage("construct", build)
+    if host != "none" and "m" in box:
+        def nest():
+            wf = Workflow("c13_macro_family", autoload=None, strict_naming=strict)
+            box["wf"] = wf
+            roots.insert(0, wf)
+            if host == "attr":
+                wf.m = box["m"]
+            elif host == "add":
+                wf.add_child(box["m"], label="renamed")
+            elif host == "kw":
+                box["k"] = cls(label="k", parent=wf)
+                box["m"].parent = wf
+            elif host == "two":
+                wf.m = box["m"]
+                wf.n = cls(x=wf.m) if "x" in box["m"].inputs.labels else cls()
+        stage("nest", nest)
+    if case["run"] and "m" in box:
+        stage("run", lambda: (box.get("wf") or box["m"])())
+    if host in ("attr", "two") and "wf" in box:
+        stage("remove", lambda: box["wf"].remove_child(box["m"]))
+    return obs
+
+
+def macro_oracle(case, obs):
+    if not isinstance(obs, list) or not obs:
+        return "driver: no observation"
+    for name, res, snap in obs:
+        if res != "ok":
+            return f"macro-family-error: stage {name} of {case['cls']}/{case['host']} raised {res}"
+        for where, ch, st, reserved in snap:
+            keys = [k for k, _, _, _ in ch]
+            if len(set(keys)) != len(keys):
+                return f"unique: after {name}, {where} lists a label twice: {keys}"
+            for k, lab, par_ok, _ in ch:
+                if not par_ok:
+                    return f"agree: after {name}, {where} lists {k!r} but that node does not name it as its parent"
+                if lab != k:
+                    return f"agree: after {name}, {where} lists a child under {k!r} whose label is {lab!r}"
+            if reserved:
+                return f"reserved: after {name}, {where} lists children under its own attribute names {reserved}"
+            for lab, listed, par_ok in st:
+                if not listed or not par_ok:
+                    return (f"starting: after {name}, starting node {lab!r} of {where} is not a current child "
+                            f"(listed: {listed}, names it as parent: {par_ok}; children {keys})")
+    return None
+
+
 POOL = ["a", "b", "c", "a0", "a1", "b0", "m", "w", "run", "inputs", "parent", "children", "label",
         "starting_nodes", "a/b", "", "x"]
 # names that exist only in the INSTANCE __dict__ of a composite (not on its class), plus a plain value the
@@ -57,6 +237,11 @@ USERVAL = "userval"
 INSTANCE_ONLY = ["executor", "running", "failed", "future", "checkpoint", "recovery", "strict_naming",
                  "signal_queue", "running_children", "provenance_by_execution", "provenance_by_completion",
                  "automate_execution", "starting_nodes", USERVAL]
+
+
+# labels differing from the everyday ones only by leading/trailing blanks: distinct labels as far as the
+# ownership code is concerned (a sibling "a " next to "a" is no clash)
+WS_VARIANTS = [v for l in POOL[:8] for v in (l + " ", " " + l, " " + l + " ")]
 
 
 def genuine_attributes(obj):
@@ -74,8 +259,8 @@ def _reserved_tables():
     m = Macro13(label="resprobe")
     for o in (w, m):
         setattr(o, USERVAL, 7)
-    cand = set(POOL) | set(INSTANCE_ONLY)
-    for l in POOL + INSTANCE_ONLY:
+    cand = set(POOL) | set(INSTANCE_ONLY) | set(WS_VARIANTS)
+    for l in POOL + INSTANCE_ONLY + WS_VARIANTS:
         for i in range(12):
             cand.add(f"{l}{i}")
             for j in range(3):
@@ -142,6 +327,8 @@ def gen_ops(rng, nodes, n_ops):
         r = rng.random()
         if r < 0.12:
             return rng.choice(INSTANCE_ONLY)
+        if r < 0.24:
+            return rng.choice(WS_VARIANTS[:9] if rng.random() < 0.6 else WS_VARIANTS)   # "a ", " a", " a ", "b ", ...
         return rng.choice(POOL if r < 0.56 else POOL[:8])
     for _ in range(n_ops):
         wild = rng.random() < 0.25
@@ -206,8 +393,8 @@ def gen_ops(rng, nodes, n_ops):
 
 def generate(ctx):
     rng = ctx.rng
-    cases, seen = [], set()
-    n = ctx.n(700, 12000)
+    cases, seen = gen_macro_cases(), set()
+    n = len(cases) + ctx.n(700, 12000)
     while len(cases) < n:
         nodes = gen_universe(rng)
         ops = gen_ops(rng, nodes, rng.choice([6, 10, 14, 20, 30] if ctx.quick else [10, 20, 30, 40]))
@@ -242,6 +429,8 @@ def _make(kind, label, strict, parent=None, fresh=False):
 
 def run_impl(case):
     from pyiron_workflow.nodes.composite import Composite
+    if case.get("kind") == "macro":
+        return run_macro_case(case)
     nodes, ops = case["nodes"], case["ops"]
     N = len(nodes)
     objs = [_make(k, l, s) for k, l, s in nodes]
@@ -389,6 +578,8 @@ def op_coq(op):
 
 
 def model_term(case):
+    if case.get("kind") == "macro":
+        return None       # graph-creator macros are outside Lex.v (oracle-only family, see RULE)
     if _ckey(case) not in _EXECUTED:
         run_impl(case)
     nodes, ops = case["nodes"], case["ops"][:_EXECUTED[_ckey(case)]]
@@ -477,6 +668,8 @@ def first_failure(case, obs, base=0):
 
 
 def oracle(case, obs):
+    if case.get("kind") == "macro":
+        return macro_oracle(case, obs)
     f = first_failure(case, obs)
     if f is None:
         return None
@@ -493,14 +686,24 @@ def known(case, obs, verdict):
 
 # ---- bookkeeping -------------------------------------------------------------------------------
 def nontrivial(case, obs):
+    if case.get("kind") == "macro":
+        return True
     return isinstance(obs, list) and any(obs[t][1] != (obs[t - 1][1] if t > 1 else obs[0]) for t in range(1, len(obs)))
 
 
 def key(case):
+    if case.get("kind") == "macro":
+        return [case["cls"], case["host"], case["run"], case["strict"]]
     return [case["nodes"], case["ops"]]
 
 
 def shrink_candidates(case):
+    if case.get("kind") == "macro":
+        if case["run"]:
+            yield dict(case, run=False)
+        if case["host"] != "none":
+            yield dict(case, host="none")
+        return
     nodes, ops = case["nodes"], case["ops"]
     for i in range(len(ops) - 1, -1, -1):
         yield {"nodes": nodes, "ops": ops[:i] + ops[i + 1:]}
@@ -510,8 +713,13 @@ def shrink_candidates(case):
 
 
 def distribution(results):
-    d = {"ops": {}, "results": {}, "histories_with_violation": 0, "clean_histories": 0, "max_depth": 0}
+    d = {"ops": {}, "results": {}, "histories_with_violation": 0, "clean_histories": 0, "max_depth": 0,
+         "macro_family_cases": 0, "labels_with_blanks": 0}
     for c, enc, v, o in results:
+        if c.get("kind") == "macro":
+            d["macro_family_cases"] += 1
+            continue
+        d["labels_with_blanks"] += sum(1 for op in c["ops"] for a in op[1:] if isinstance(a, str) and a != a.strip())
         if v is None:
             d["clean_histories"] += 1
         else:
